@@ -612,6 +612,9 @@ impl Sim {
                         props.push("C08");
                     } else if *reason == "id_in_use" {
                         props.push("C11");
+                    } else if *reason == "bid_fee_unpayable" {
+                        // C03 does not forbid the match; but no settlement of it can satisfy C02/C17
+                        props = vec!["C02", "C17"];
                     }
                     self.flag(
                         &props,
